@@ -12,9 +12,12 @@
 //	  L @name                     Load()            (Slice == nil)
 //	  LS @name k <SEL>*k          Load() with Slice; SEL = N | T a b s | X m v1..vm
 //	  P / E / D / G @name         Shape / Exists / GetDatasets / GetGroups
-//	ARR = r B1..Br n v1..vn sl [start*r count*r step*r]  lr L1..Llr ln x1..xln
-//	      base array (row-major bit patterns, hex), optional Slice of it, and
-//	      the logical (dims, elems) the generator expects Unroll() to give
+//	ARR = r B1..Br n v1..vn <VIEW>  lr L1..Llr ln x1..xln
+//	      base array (row-major bit patterns, hex), the view of it that is the source array, and
+//	      the logical (dims, elems) of that view = what Get returns, row-major
+//	VIEW = 0 | 1 start*r count*r step*r | 2 <ntokens> <nops> OP...      (nested views)
+//	      OP = S r' start*r' count*r' (N | E step*r')   Slice with nil / explicit step
+//	         | R nr d1..dnr                             MustReshape
 //	BIG <type> <op>...          the same operations on LARGE blocks: ARR is procedural,
 //	      ARR = r B1..Br seed sl [start*r count*r step*r]   (base value at flat index i = seed + i)
 //	      and results / file contents are printed as SHA-256 digests (per dataset, and
@@ -55,6 +58,8 @@ type typeOps struct {
 	build      func(base []int, vals []uint64) interface{}
 	fill       func(base []int, seed uint64) interface{}
 	slice      func(x interface{}, start, count, step []int) interface{}
+	reshape    func(x interface{}, dims []int) interface{}
+	getAll     func(x interface{}) []uint64
 	shape      func(x interface{}) []int
 	unroll     func(x interface{}) []uint64
 	write      func(fn, ds string, x interface{}) error
@@ -237,11 +242,35 @@ func (s *sess) arr(k *toks) *srcArr {
 		b = ty.build(base, vals)
 	}
 	a := &srcArr{view: b, base: b}
-	if k.int() == 1 {
+	switch k.int() {
+	case 1: // one Slice with an explicit step
 		start, count, step := k.ints(r), k.ints(r), k.ints(r)
 		a.view = ty.slice(b, start, count, step)
+	case 2: // a chain of Slice (nil or explicit step) / Reshape operations: "2 <ntokens> <nops> op..."
+		k.int()
+		for nops := k.int(); nops > 0; nops-- {
+			switch k.next() {
+			case "S":
+				rr := k.int()
+				start, count := k.ints(rr), k.ints(rr)
+				var step []int
+				if k.next() == "E" {
+					step = k.ints(rr)
+				}
+				a.view = ty.slice(a.view, start, count, step)
+			case "R":
+				a.view = ty.reshape(a.view, k.ints(k.int()))
+			default:
+				panic("h5ops: bad view operation")
+			}
+		}
 	}
-	if !s.big {
+	if s.big {
+		// what the view IS is what Get returns; Unroll must agree (property C02)
+		if g, u := digestBits(ty.getAll(a.view), ty.bits), digestBits(ty.unroll(a.view), ty.bits); g != u {
+			s.notes = append(s.notes, fmt.Sprintf("UNROLL-MISMATCH shape=%v digest(Get row-major)=%s digest(Unroll)=%s", ty.shape(a.view), g, u))
+		}
+	} else {
 		lr := k.int()
 		ldims := k.ints(lr)
 		ln := k.int()
@@ -249,12 +278,19 @@ func (s *sess) arr(k *toks) *srcArr {
 		for i := range lvals {
 			lvals[i] = k.hex()
 		}
-		got := ty.unroll(a.view)
-		ok := len(got) == len(lvals) && fmt.Sprint(ty.shape(a.view)) == fmt.Sprint(ldims)
-		for i := 0; ok && i < len(got); i++ {
-			ok = got[i] == lvals[i]
+		same := func(got []uint64) bool {
+			ok := len(got) == len(lvals) && fmt.Sprint(ty.shape(a.view)) == fmt.Sprint(ldims)
+			for i := 0; ok && i < len(got); i++ {
+				ok = got[i] == lvals[i]
+			}
+			return ok
 		}
-		if !ok {
+		// the generator's logical content is the view read element by element (Get, row-major) ...
+		if got := ty.getAll(a.view); !same(got) {
+			s.notes = append(s.notes, fmt.Sprintf("GET-MISMATCH shape=%v got=%x want=%x", ty.shape(a.view), got, lvals))
+		}
+		// ... and Unroll() must give the same (property C02; reported, the I/O oracle still runs)
+		if got := ty.unroll(a.view); !same(got) {
 			s.notes = append(s.notes, fmt.Sprintf("UNROLL-MISMATCH shape=%v got=%x want=%x", ty.shape(a.view), got, lvals))
 		}
 	}
